@@ -111,8 +111,7 @@ ssize_t simk_read(int fd, void *buf, size_t n) {
       size_t m = n < pp->len ? n : pp->len;
       if (f && f->err == F_SHORT && f->variant > 0 && (size_t) f->variant < m) m = (size_t) f->variant;
       uint8_t *d = (uint8_t *) buf;
-      for (size_t i = 0; i < m; i++) { d[i] = pp->buf[pp->head]; pp->head = (pp->head + 1) % pp->cap; }
-      pp->len -= m;
+      for (size_t i = 0; i < m; i++) d[i] = pp->pop();
       pp->total_r += m;
       k->logrec(K_read, fd, (int64_t) n, pp->id, (int64_t) m, 0, (parked ? RF_PARKED : 0) | (f ? RF_INJECTED : 0));
       return (ssize_t) m;
@@ -159,7 +158,7 @@ ssize_t simk_write(int fd, const void *buf, size_t n) {
     size_t want = limit - done;
     if (n <= atomic && sp < want) sp = 0;  // PIPE_BUF atomicity: all or nothing
     size_t m = want < sp ? want : sp;
-    for (size_t i = 0; i < m; i++) { pp->buf[(pp->head + pp->len) % pp->cap] = s[done + i]; pp->len++; }
+    for (size_t i = 0; i < m; i++) pp->push(s[done + i]);
     pp->total_w += m;
     done += m;
     if (done >= limit) break;
